@@ -138,6 +138,7 @@ type State struct {
 	nonce  int
 	iters  []string
 	visits map[string]int
+	treeEpoch int
 }
 
 type Terminal struct {
@@ -172,7 +173,7 @@ func NewEngine(p *Prog) *Engine {
 }
 
 func (st *State) clone() *State {
-	n := &State{epoch: st.epoch, nonce: st.nonce}
+	n := &State{epoch: st.epoch, nonce: st.nonce, treeEpoch: st.treeEpoch}
 	n.frames = make([]*Frame, len(st.frames))
 	for i, f := range st.frames {
 		nf := *f
